@@ -23,7 +23,11 @@ HasM2(e, k) == HasP(e, "m2." \o k)
 \* value (and its exponent) printed by a plain entry <<sec, key, field, P, d>>; <<>> = not in the table
 PlainValue(e, en) ==
   LET sec == en[1]  key == en[2]  fld == en[3]  pm == e.pm
-      m(k) == IF HasM2(e, k) THEN <<M2(e, k), pm, 0>> ELSE <<0, pm, 0>>
+      \* a per-m2 value: in hundredths as the f32 of the result rounds to them (out.m2c, projection of the harness: the
+      \* digits of the value formatted with two decimals) when the event carries it - the printed number is then compared
+      \* to one hundredth, whatever the size of the building - else at the logging unit
+      m(k) == IF "m2c" \in DOMAIN e.out /\ k \in DOMAIN e.out.m2c THEN <<e.out.m2c[k], 2, 0>>
+              ELSE IF HasM2(e, k) THEN <<M2(e, k), pm, 0>> ELSE <<0, pm, 0>>
       trip(pre) == IF fld = "tot" THEN (IF HasM2(e, pre \o ".ren") THEN <<M2(e, pre \o ".ren") + M2(e, pre \o ".nren"), pm, 1>> ELSE <<0, pm, 1>>)
                    ELSE m(pre \o "." \o fld)
   IN CASE sec = "h1" /\ key = "k1" -> <<V(e, "arearef"), 3, 0>>
